@@ -1,7 +1,7 @@
 (* Property C08 — held links deliver nothing until released, then everything
    exactly once in order.  Statements only; proofs in C08_proofs.v. *)
 From TV.Lib Require Import Base.
-From TV.Link Require Import Model Facts Topo_proofs C08_proofs.
+From TV.Link Require Import Model Facts Topo_proofs Topo_run C03_topo C08_proofs C08_topo.
 Open Scope N_scope.
 
 (* A message that is parked (status OnHold in `sent`, in no ready queue) is in
@@ -79,6 +79,19 @@ Theorem c08_unheld_links_untouched : forall t a b e q,
   get_link q (tlinks (fst (tstep t (TLink a b e)))) = get_link q (tlinks t).
 Proof. exact topo_frame_link. Qed.
 
+(* The same on the whole topology, registrations included: per id, what sits in
+   all links plus what any host was handed never exceeds what was put on the
+   network -- so with unique ids no host ever receives a message twice and no
+   two hosts receive the same message, whatever the history (holds, releases,
+   manual deliveries, partitions, coins, any number of hosts). *)
+Theorem c08_topology_at_most_once : forall g es,
+  NoDup (tsend_ids es) -> NoDup (touts (tinit g) es).
+Proof. exact c08_topology_at_most_once_lemma. Qed.
+
+Theorem c08_topology_mass : forall es t x,
+  (tmass x (tlinks (tstate t es)) + cnt x (touts t es) <= tmass x (tlinks t) + cnt x (tsend_ids es))%nat.
+Proof. exact touts_mass. Qed.
+
 (* Non-vacuity: a held message is not delivered during the hold and is
    delivered exactly once after release. *)
 Definition g0 := {| lmin := 0; lmax := 5 * ms |}.
@@ -106,4 +119,6 @@ Print Assumptions c08_exactly_once.
 Print Assumptions c08_release_order.
 Print Assumptions c08_links_view.
 Print Assumptions c08_unheld_links_untouched.
+Print Assumptions c08_topology_at_most_once.
+Print Assumptions c08_topology_mass.
 Print Assumptions c08_nonvacuous.
